@@ -16,6 +16,7 @@ the delay is allowed by `DeliveryPrefix` and loses nothing (the main theorem cov
 Data-race freedom is a runtime fact and not covered by any theorem here.
 -/
 import SwV.Lemmas.C22
+import SwV.Lemmas.C22Disk
 import SwV.Gen.C22
 namespace SwV.Props.C22
 open SwV.Model.C22 SwV.Spec.C22 SwV.Lemmas.C22
@@ -384,6 +385,224 @@ example : (run (start realCfg) goodOps).rds.map (·.got) = [[1000, 2000, 4000000
 example : 0 < realCfg.prevCount := by decide
 
 
+-- ---------------------------------------------------------------- the persisted-log path (Model/C22Disk)
+
+/- FULL STATEMENT for one call of `ReadPersistedLogBuffer` (FALSE of the code, see `disk_witness`):
+
+     theorem disk_delivery_exact (files : List Seg) (T : Int) : (persistedRead files T).1 = expected (persisted files) T
+
+   `logFlushFunc` names a segment file after the minute of the flushed buffer's START, the buffer holds
+   entries up to one flush interval later, and `ReadPersistedLogBuffer` skips files by NAME.  -/
+
+/-- one call of `ReadPersistedLogBuffer` from `T` hands over exactly the persisted changes later than `T`,
+    once and in order, PROVIDED no segment file whose name sorts before `T`'s minute holds an entry later
+    than `T` (`NoStraddle`, the excluded inputs = finding ReadPersistedLogBuffer/skips-segment-file-by-name)
+    and at most 366 day directories follow the start date (`FewDays`: one call lists no more) -/
+theorem disk_delivery_exact_partial (files : List Seg) (T : Int) (hn : NoStraddle files T) (hd : FewDays files T) :
+    (persistedRead files T).1 = expected (persisted files) T :=
+  persistedRead_fst files T hn hd
+
+/-- … in particular for EVERY start time when no flushed buffer crosses a minute boundary -/
+theorem disk_delivery_exact_within_minute (files : List Seg) (T : Int) (hT : 0 ≤ T) (hw : WithinMinute files)
+    (hd : FewDays files T) : (persistedRead files T).1 = expected (persisted files) T :=
+  persistedRead_fst files T (withinMinute_noStraddle files hw T hT) hd
+
+/-- the `lastTsNs` returned is the last change handed over (0 iff none): the subscribe loop continues from there -/
+theorem disk_last_ts (files : List Seg) (T : Int) (hs : (persisted files).Pairwise (· < ·)) (hne : ∀ F ∈ files, F.ents ≠ [])
+    (hpos : ∀ t ∈ persisted files, 0 < t) :
+    ((persistedRead files T).1 = [] → (persistedRead files T).2 = 0) ∧
+    ((persistedRead files T).1 ≠ [] → (persistedRead files T).1.getLast? = some (persistedRead files T).2 ∧ (persistedRead files T).2 ≠ 0) :=
+  persistedRead_snd files T hs hne hpos
+
+/-- the production configuration: flush interval `filer.LogFlushInterval` = 1 minute -/
+def prodCfg : Cfg := ⟨-2104701234, 4194304, 3, 60000000000⟩
+
+/-- corpus/C22/witness_segment_skipped_by_name.ops: events at 12:26:40 and 12:27:10 (2020-09-13 UTC) share a buffer -/
+def diskWitnessOps : List DOp := [.add 1600000000000000000 5, .add 1600000030000000000 5, .sealNow]
+
+def witnessFiles : List Seg := [⟨18518, 746, [1600000000000000000, 1600000030000000000]⟩]
+
+/-- the production flush function writes both events to 2020-09-13/12-26.segment -/
+theorem disk_witness_layout : (drun (dstart prodCfg) diskWitnessOps).d.files = witnessFiles := by decide
+
+/-- WITNESS: the full statement is false — from 12:27:05 nothing is handed over although 12:27:10 is persisted -/
+theorem disk_witness :
+    persistedRead witnessFiles 1600000025000000000 = ([], 0) ∧
+    expected (persisted witnessFiles) 1600000025000000000 = [1600000030000000000] := by decide
+
+theorem disk_delivery_exact_fails : ¬ ∀ (files : List Seg) (T : Int), (persistedRead files T).1 = expected (persisted files) T := by
+  intro h
+  have := h witnessFiles 1600000025000000000
+  revert this
+  decide
+
+/-- … and the witness is exactly an excluded input -/
+theorem disk_witness_is_excluded : ¬ NoStraddle witnessFiles 1600000025000000000 := by decide
+
+/-- non-vacuity: from the first event the same layout is read exactly -/
+example : NoStraddle witnessFiles 1600000000000000000 ∧ FewDays witnessFiles 1600000000000000000 := by decide
+example : (persistedRead witnessFiles 1600000000000000000) = ([1600000030000000000], 1600000030000000000) := by decide
+example : WithinMinute [⟨18518, 746, [1600000000000000000, 1600000010000000000]⟩, ⟨18518, 747, [1600000030000000000]⟩] := by decide
+
+/-! ### the subscriber over the real disk path -/
+
+theorem disk_deliver_RInv (lb : LB) (r r' : Rd) (hi : LInv lb) (hr : RInv lb r)
+    (h0 : r'.t0 = r.t0) (hT : r'.T = lastOr (diskRead lb r.T) r.T) (hg : r'.got = r.got ++ diskRead lb r.T) : RInv lb r' := by
+  have hsd : Sorted lb.disk := by
+    have := hi.sorted; rw [hi.dseg, List.append_assoc] at this; exact sorted_prefix this
+  obtain ⟨A, hA, hle⟩ := split_gt lb.disk r.T hsd
+  have hlog : lb.log = A ++ diskRead lb r.T ++ (qflat lb.queue ++ lb.cur.ents) := by
+    rw [hi.dseg]; unfold diskRead; rw [← hA]; simp [List.append_assoc]
+  refine RInv_deliver lb r _ (diskRead lb r.T) A _ hi hr hlog hle ?_ h0 hT hg
+  intro t ht
+  unfold diskRead at ht
+  simpa using (List.mem_filter.mp ht).2
+
+/-- what a schedule must satisfy at a subscriber step: a disk read does not start inside a straddling
+    segment file, a memory read is `ReadSafe` -/
+def DSafeStep (s : DSys) : DOp → Prop
+  | .rstep i => match s.rds[i]? with
+    | some r => if r.onDisk = true then NoStraddle s.d.files r.T ∧ FewDays s.d.files r.T else ReadSafe s.d.lb r.T
+    | none => True
+  | _ => True
+
+def DSafeRun (s : DSys) : List DOp → Prop
+  | [] => True
+  | o :: os => DSafeStep s o ∧ DSafeRun (dstep s o) os
+
+def DSInv (s : DSys) : Prop := DInv s.d ∧ ∀ r ∈ s.rds, RInv s.d.lb r
+
+theorem rstepD_RInv (d : DLB) (r : Rd) (hd : DInv d) (hr : RInv d.lb r)
+    (hsafe : if r.onDisk = true then NoStraddle d.files r.T ∧ FewDays d.files r.T else ReadSafe d.lb r.T) :
+    RInv d.lb (rstepD d r) := by
+  unfold rstepD
+  by_cases ho : r.onDisk = true
+  · rw [if_pos ho] at hsafe ⊢
+    have hsd : Sorted d.lb.disk := by
+      have := hd.linv.sorted; rw [hd.linv.dseg, List.append_assoc] at this; exact sorted_prefix this
+    have h1 : (persistedRead d.files r.T).1 = diskRead d.lb r.T := by
+      rw [persistedRead_fst d.files r.T hsafe.1 hsafe.2, hd.flat]; rfl
+    obtain ⟨h2a, h2b⟩ := persistedRead_snd d.files r.T (by rw [hd.flat]; exact hsd) hd.nonempty
+      (by rw [hd.flat]; intro t ht; exact (hd.linv.bound t (disk_sub_log _ hd.linv t ht)).1)
+    rw [h1] at h2a h2b
+    generalize hpr : persistedRead d.files r.T = pr at h1 h2a h2b
+    obtain ⟨l, last⟩ := pr
+    simp only at h1 h2a h2b ⊢
+    subst h1
+    by_cases hl : diskRead d.lb r.T = []
+    · have hz := h2a hl
+      subst hz
+      rw [hl]
+      simp only [ne_eq, not_true_eq_false, if_false, List.append_nil]
+      split <;> exact RInv_congr hr rfl rfl rfl
+    · obtain ⟨hlast, hnz⟩ := h2b hl
+      rw [if_pos hnz]
+      refine disk_deliver_RInv d.lb r _ hd.linv hr rfl ?_ rfl
+      unfold lastOr; rw [hlast]
+  · rw [if_neg ho] at hsafe ⊢
+    exact memLoop_RInv d.lb hd.linv _ r hr hsafe
+
+theorem dstep_DSInv (s : DSys) (o : DOp) (hi : DSInv s) (hs : DSafeStep s o) : DSInv (dstep s o) := by
+  obtain ⟨hd, hr⟩ := hi
+  cases o with
+  | add ts dlen =>
+    obtain ⟨h1, _, h3, h4⟩ := DInv_settle _ (DInv_add s.d ts dlen hd)
+    exact ⟨h1, fun r h => RInv_lb (RInv_add _ _ _ _ hd.linv (hr r h)) h3 h4⟩
+  | sealNow =>
+    obtain ⟨h1, _, h3, h4⟩ := DInv_settle _ (DInv_seal s.d hd)
+    have := copyToFlush_log s.d.lb
+    exact ⟨h1, fun r h => RInv_lb (RInv_lb (hr r h) this.1 this.2.1) h3 h4⟩
+  | newReader T =>
+    refine ⟨hd, fun r h => ?_⟩
+    simp only [dstep] at h
+    rcases List.mem_append.mp h with h | h
+    · exact hr r h
+    · simp at h; subst h
+      refine ⟨?_, Or.inl rfl⟩
+      show [] = window T T s.d.lb.log
+      exact (window_eq_nil (fun t _ h => by omega)).symm
+  | rstep i =>
+    refine ⟨hd, fun r' h => ?_⟩
+    simp only [dstep] at h
+    rcases modifyAt_mem _ _ _ _ h with h | ⟨r, hri, he⟩
+    · exact hr r' h
+    · subst he
+      have hmem : r ∈ s.rds := List.mem_of_getElem? hri
+      simp only [DSafeStep, hri] at hs
+      exact rstepD_RInv s.d r hd (hr r hmem) hs
+
+theorem drun_DSInv : ∀ (ops : List DOp) (s : DSys), DSInv s → DSafeRun s ops → DSInv (drun s ops) := by
+  intro ops
+  induction ops with
+  | nil => intro s h _; exact h
+  | cons o os ih => intro s h hs; exact ih _ (dstep_DSInv s o h hs.1) hs.2
+
+/-- MAIN THEOREM over the real disk path.  The log buffer with its PRODUCTION flush function (sealed
+    buffers are appended to the segment file named after the minute of their start; the flush keeps up)
+    and subscribers whose disk phase is `ReadPersistedLogBuffer` (directory walk, files skipped by name,
+    `lastTsNs` of the last file): for every schedule of appends (any timestamps), interval seals, new
+    subscribers (any start) and subscriber steps in which no disk read starts inside a straddling segment
+    file and every memory read is `ReadSafe`, every subscriber has received exactly a prefix of the
+    timestamp-ordered changes later than its start. -/
+theorem delivery_prefix_disk_partial (cfg : Cfg) (hc : 0 < cfg.prevCount) (ops : List DOp) (hs : DSafeRun (dstart cfg) ops) :
+    ∀ r ∈ (drun (dstart cfg) ops).rds, DeliveryPrefix (drun (dstart cfg) ops).d.lb.log r.got r.t0 := by
+  intro r hr
+  obtain ⟨hd, hrs⟩ := drun_DSInv ops _ ⟨DInv_init cfg hc, by simp [dstart]⟩ hs
+  unfold DeliveryPrefix
+  rw [(hrs r hr).1]
+  exact window_prefix _ _ _ hd.linv.sorted
+
+/-- the segment files ARE the flat persisted log of the buffer model, whatever the schedule: the engine's
+    `disk` abstraction (concatenation of the flushed buffers) is what the production flush function writes -/
+theorem files_are_the_flushed_log (cfg : Cfg) (hc : 0 < cfg.prevCount) (ops : List DOp) :
+    persisted (drun (dstart cfg) ops).d.files = (drun (dstart cfg) ops).d.lb.disk ∧
+    (drun (dstart cfg) ops).d.lb.queue = [] := by
+  have key : ∀ (ops : List DOp) (s : DSys), DInv s.d → s.d.lb.queue = [] →
+      DInv (drun s ops).d ∧ (drun s ops).d.lb.queue = [] := by
+    intro ops
+    induction ops with
+    | nil => intro s h hq; exact ⟨h, hq⟩
+    | cons o os ih =>
+      intro s h hq
+      cases o with
+      | add ts dlen => obtain ⟨h1, h2, _, _⟩ := DInv_settle _ (DInv_add s.d ts dlen h); exact ih _ h1 h2
+      | sealNow => obtain ⟨h1, h2, _, _⟩ := DInv_settle _ (DInv_seal s.d h); exact ih _ h1 h2
+      | newReader T => exact ih _ h hq
+      | rstep i => exact ih _ h hq
+  obtain ⟨h1, h2⟩ := key ops (dstart cfg) (DInv_init cfg hc) (by simp [dstart, init])
+  exact ⟨h1.flat, h2⟩
+
+instance (s : DSys) (o : DOp) : Decidable (DSafeStep s o) := by
+  unfold DSafeStep
+  cases o with
+  | rstep i => simp only; split <;> infer_instance
+  | _ => simp only; infer_instance
+instance decDSafeRun : (ops : List DOp) → (s : DSys) → Decidable (DSafeRun s ops)
+  | [], _ => isTrue trivial
+  | o :: os, s => by
+    unfold DSafeRun
+    exact @instDecidableAnd _ _ _ (decDSafeRun os (dstep s o))
+
+/-- the subscriber of the witness corpus: starts at 12:27:05, loses 12:27:10 for good -/
+def diskSubWitnessOps : List DOp :=
+  [.add 1600000000000000000 5, .add 1600000030000000000 5, .sealNow, .newReader 1600000025000000000,
+   .rstep 0, .rstep 0, .rstep 0, .add 1600000200000000000 5, .sealNow, .rstep 0, .rstep 0]
+
+theorem disk_sub_witness :
+    (drun (dstart prodCfg) diskSubWitnessOps).rds.map (·.got) = [[1600000200000000000]] ∧
+    ¬ ∀ r ∈ (drun (dstart prodCfg) diskSubWitnessOps).rds,
+        DeliveryPrefix (drun (dstart prodCfg) diskSubWitnessOps).d.lb.log r.got r.t0 := by decide
+
+theorem disk_sub_witness_is_excluded : ¬ DSafeRun (dstart prodCfg) diskSubWitnessOps := by decide
+
+/-- non-vacuity of `delivery_prefix_disk_partial`: the same schedule with the subscriber starting at the first event -/
+def diskGoodOps : List DOp :=
+  [.add 1600000000000000000 5, .add 1600000030000000000 5, .sealNow, .newReader 1600000000000000000,
+   .rstep 0, .rstep 0, .add 1600000200000000000 5, .sealNow, .rstep 0, .rstep 0, .rstep 0]
+
+example : DSafeRun (dstart prodCfg) diskGoodOps := by decide
+example : (drun (dstart prodCfg) diskGoodOps).rds.map (·.got) = [[1600000030000000000, 1600000200000000000]] := by decide
+
 -- ---------------------------------------------------------------- source tie (regenerated from /repo on every run)
 
 /-- the configuration the theorems are instantiated with is the one of the source tree -/
@@ -404,5 +623,20 @@ theorem bridge_conditions :
 theorem bridge_pins :
     SwV.Gen.C22.src_SealBuffer = "49ef37a949883d36" ∧ SwV.Gen.C22.src_copyToFlush = "200cfaf5ef2d87a1" ∧
     SwV.Gen.C22.src_loopFlush = "548e8b458718ff9a" ∧ SwV.Gen.C22.src_LoopProcessLogData = "3a30c65e01c32225" := by decide
+
+/-- the disk path: the flush interval of the production buffer, the name a segment file gets (minute of the
+    buffer's START time), the by-name skipping of `ReadPersistedLogBuffer` and the `TsNs > start` filter of
+    `ReadEachLogEntry` are the ones Model/C22Disk mirrors (`prodCfg`, `logFlush`, `selected`, `readSeg`) -/
+theorem bridge_disk :
+    SwV.Gen.C22.LogFlushInterval = prodCfg.interval ∧
+    SwV.Gen.C22.flushNameFormat = "\"%s/%04d-%02d-%02d/%02d-%02d.segment\"" ∧
+    SwV.Gen.C22.flushNameHour = "startTime.Hour()" ∧ SwV.Gen.C22.flushNameMinute = "startTime.Minute()" ∧
+    SwV.Gen.C22.diskSkipDayCond = "dayEntry.Name() == startDate" ∧
+    SwV.Gen.C22.diskSkipCond = "strings.Compare(hourMinuteEntry.Name(), startHourMinute) < 0" ∧
+    SwV.Gen.C22.diskEntryCond = "logEntry.TsNs <= ns" := by decide
+
+theorem bridge_disk_pins :
+    SwV.Gen.C22.src_logFlushFunc = "8ce3841f445d052e" ∧ SwV.Gen.C22.src_ReadPersistedLogBuffer = "e841cfed381c635c" ∧
+    SwV.Gen.C22.src_ReadEachLogEntry = "c596ed5be434ba36" ∧ SwV.Gen.C22.src_appendToFile = "c1e53426675633a4" := by decide
 
 end SwV.Props.C22
